@@ -27,29 +27,48 @@ Fixpoint c03_input (S : SOps) (sq eg : nat -> lmx S -> lmx S) (L : layout) (augs
       c03_input S sq eg (l_add_noise L q) rest (map (@augment_comp O (l_dim L) (l_dcov L) q Q) comps)
   end.
 
+(* non-zero means written on the noise rows after the augmentation (one q x 1 column per
+   component; the empty list leaves the zeros of augmentWithNoise) *)
+Definition c03_noise_means (S : SOps) (sq eg : nat -> lmx S -> lmx S) (L' : layout) (q : nat)
+           (nms : list (lmx S)) (cs : list (lmx S * lmx S)) : list (lmx S * lmx S) :=
+  let O := c03_O S sq eg in
+  match nms with
+  | [] => cs
+  | _ => map (fun p => @set_noise_rows O (l_dim L') (l_dcov L') q (fst p) (snd p)) (combine nms cs)
+  end.
+
 (* sigma_point(state, c) *)
 Definition c03_sigma (S : SOps) (sq eg : nat -> lmx S -> lmx S) (L : layout) (aug : list (nat * lmx S))
-           (c : T S) (comps : list (lmx S * lmx S)) : list (lmx S) :=
+           (nms : list (lmx S)) (c : T S) (comps : list (lmx S * lmx S)) : list (lmx S) :=
   let O := c03_O S sq eg in
-  let '(L', cs) := c03_input S sq eg L aug comps in
+  let '(L', cs0) := c03_input S sq eg L aug comps in
+  let cs := c03_noise_means S sq eg L' (l_noise L') nms cs0 in
   @sigma_points O L' (l_dim L') (l_dcov L') c cs.
 
 (* unscented_transform: overload 0 FunctionEvaluation, 1 StateModel, 2 AdditiveStateModel,
    3 MeasurementModel, 4 AdditiveMeasurementModel; f = Some (A, b): x -> A x + b on every
-   column, None: the evaluation fails; N the additive noise covariance (overloads 2, 4) *)
+   column (with quad = Some (G, g): x -> A x + b + g o (G x) o (G x)), None: the evaluation
+   fails; N the additive noise covariance (overloads 2, 4) *)
 Definition c03_ut (S : SOps) (sq eg : nat -> lmx S -> lmx S) (L Lout : layout) (aug : list (nat * lmx S))
+           (nms : list (lmx S))
            (wn : nat) (alpha beta kappa : T S) (comps : list (lmx S * lmx S))
-           (f : option (lmx S * lmx S)) (overload : nat) (N : lmx S)
+           (f : option (lmx S * lmx S)) (quad : option (lmx S * lmx S)) (overload : nat) (N : lmx S)
   : option (list (lmx S * lmx S * lmx S) * list (T S)) :=
   let O := c03_O S sq eg in
-  let '(L', cs) := c03_input S sq eg L aug comps in
+  let '(L', cs0) := c03_input S sq eg L aug comps in
+  let cs := c03_noise_means S sq eg L' (l_noise L') nms cs0 in
   let d := l_dim L' in let dc := l_dcov L' in let dx := l_dx L' in
   let p := l_dim Lout in let pc := l_dcov Lout in
   let w := @ut_weights O wn alpha beta kappa in
+  let ev (A b : lmx S) (X : list (M O d 1)) : list (M O p 1) :=
+    match quad with
+    | Some (G, g) => @quadratic_cols O d p A G b g X
+    | None => @affine_cols O d p A b X
+    end in
   let fo : list (M O d 1) -> option (list (M O p 1)) :=
-    fun X => match f with Some (A, b) => Some (@affine_cols O d p A b X) | None => None end in
+    fun X => match f with Some (A, b) => Some (ev A b X) | None => None end in
   let ft : list (M O d 1) -> list (M O p 1) :=
-    fun X => match f with Some (A, b) => @affine_cols O d p A b X | None => [] end in
+    fun X => match f with Some (A, b) => ev A b X | None => [] end in
   let r : option (ut_result O p pc dx) :=
     match overload with
     | 0 => @ut_generic O L' Lout d dc p pc dx w cs fo
